@@ -82,6 +82,27 @@ def directed():
     cs.append(([(K, 0, "k0", i(1)), (I, ('B', '<', v("k0"), i(0)), [(O, 1)], [(O, 2)], False)], ["k0=-0x10"]))
     cs.append(([(K, 0, "k0", i(1))], ["k0="]))
     cs.append(([(K, 0, "k0", i(1))], ["k0=1=2"]))
+    # children declared INSIDE arms of a parent declared OUTSIDE (before) the #if: never F55, spec = impl required
+    uart1 = [(K, 0, "FAST", F), (K, 0, "LEGACY", F), (O, 170), (K, 0, "uart", i(64)),
+             (I, v("FAST"), [(K, 1, "div", i(1))],
+              [(I, v("LEGACY"), [(K, 1, "div", i(96))], [(K, 1, "div", i(8)), (I, eq(v("uart"), i(64)), [(K, 1, "mode", i(3))], None, False)], False)], True),
+             (I, eq(v("uart", "div"), i(8)), [(O, 8)], [(O, 9)], False), (O, 255)]
+    for d in ([], ["FAST"], ["LEGACY"], ["uart.div=0x20"], ["spi.div=0x20"], ["uart.mode=1"], ["FAST", "uart.mode=1"], ["div=1"]):
+        cs.append((uart1, d))
+    uart2 = [(K, 0, "WITH_SPI", T), (K, 0, "WITH_UART", T), (K, 0, "REV", i(2)), (O, 170),
+             (I, v("WITH_SPI"), [(I, ('B', ']', v("REV"), i(2)), [(K, 0, "spi", i(80))], None, False)], None, False),
+             (K, 0, "uart", i(64)),
+             (I, v("WITH_UART"), [(I, ('B', ']', v("REV"), i(2)), [(K, 1, "div", i(8)), (O, 8)], [(K, 1, "div", i(16)), (O, 16)], False)], None, False),
+             (O, 255)]
+    for d in ([], ["uart.div=0x20"], ["spi.div=0x20"], ["REV=1"], ["WITH_SPI=false"], ["WITH_SPI=false", "uart.div=0x20"], ["WITH_UART=false", "uart.div=1"]):
+        cs.append((uart2, d))
+    for depth in (1, 2, 3):
+        inner = [(K, 1, "c0", i(depth)), (O, depth)]
+        for n in range(depth):
+            inner = [(I, eq(v("k0"), i(1)), inner, [(K, 1, "c0", i(9)), (O, 90 + n)], False)]
+        for par in ((L, 0, "a"), (K, 0, "a", i(5))):
+            for d in ([], ["a.c0=7"], ["k0=0"], ["k0=0", "a.c0=7"]):
+                cs.append(([(K, 0, "k0", i(1)), (L, 0, "z"), par] + inner + [(I, eq(v("a", "c0"), i(7)), [(O, 70)], None, False)], d))
     # duplicates across a selected arm, none across unselected ones
     cs.append(([(K, 0, "k0", i(1)), (I, T, [(K, 0, "k0", i(2))], None, False)], []))
     cs.append(([(K, 0, "k0", i(1)), (I, F, [(K, 0, "k0", i(2))], None, False)], []))
@@ -139,9 +160,12 @@ def run(chk):
         r.update(kw)
         return r
 
-    def f55(idx, what, **kw):
-        t = cases[idx][0]
-        if G.f55_shape(t) and "nested_symbol_across_if" in known:
+    corr_ok = {}
+
+    def f55(idx, what, world, **kw):
+        """known finding F55 ONLY for its exact shape (c16_gen.f55_exact on the selected world) and only when the
+        implementation still behaves as the model of the recorded code does; everything else is a violation"""
+        if world is not None and corr_ok.get(idx) and G.f55_exact(world) and "nested_symbol_across_if" in known:
             chk.known(known["nested_symbol_across_if"],
                       "class=nested_symbol_across_if: a nested symbol after an #if keeps the parent it had before the arm was spliced (e.g. `a:` / `#if true {` / `b:` / `}` / `.x = 1` declares a.x)")
             dist["known_f55"] += 1
@@ -201,6 +225,7 @@ def run(chk):
             a = [(n, k, None if (k == "l" or mv == "?") else v) for ((n, k, v), (_, _, mv)) in zip(got[2], exp[2])] if len(got[2]) == len(exp[2]) else None
             b = [(n, k, None if (k == "l" or v == "?") else v) for (n, k, v) in exp[2]]
             same = a == b
+        corr_ok[idx] = same
         if not same:
             ndis += 1
             # reported after the spec / metamorphic streams, so that a concrete failing input (if any) comes first
@@ -213,20 +238,42 @@ def run(chk):
             # (m_i = l_i, unless a define replaces it) is not a constant condition can be decided from
             rho = ";".join("%s:%s" % (n, v) for (n, k, v) in isyms if k == "c" and (n not in G.MDEP or n in defined) and v != "?")
             spec_lines.append("S\t%s\t%s" % (rho or "-", G.ser(t)))
-            spec_idx.append(idx)
+            spec_idx.append((idx, "acc"))
+        elif exp[0] == "OK":
+            # rejected although the loop model ends Ok and the later phases have nothing to object: evaluate the spec under
+            # the model's final valuation -- if every condition met is decided, the selected world declares its names
+            # without clash and every define names one of its constants, the program HAS a world and must be accepted
+            rho = ";".join("%s:%s" % (n, v) for (n, k, v) in exp[2] if k == "c" and v != "?")
+            spec_lines.append("S\t%s\t%s" % (rho or "-", G.ser(t)))
+            spec_idx.append((idx, "rej"))
         if idx % 700 == 5:
             chk.sample({"program": G.render(t), "defines": d, "impl": impl, "model": mres[idx]})
     sres = vlib.run_lines([model], spec_lines)
-    meta_lines, meta_idx = [], []
-    for idx, ans in zip(spec_idx, sres):
+    meta_lines, meta_idx, worlds = [], [], {}
+    for (idx, mode), ans in zip(spec_idx, sres):
         t, d, fam = cases[idx]
         fi = res["debug"][idx].split("\t")
-        isyms = parse_syms(fi[2])
         fs = ans.split("\t")
-        if len(fs) != 4:
+        if len(fs) != 5:
             chk.violation("spec runner failed: %s" % ans, rep(idx, kind="infrastructure"), found=False)
             continue
-        decided, marks, names, flat = fs
+        decided, marks, names, flat, decisions = fs
+        try:
+            world = G.replay_select(t, "" if decisions == "-" else decisions)
+            if G.ser([n for (n, _) in world]) != flat:
+                raise ValueError("replayed selection differs from the spec's")
+        except (ValueError, IndexError) as e:
+            chk.violation("spec runner / checker disagree on the selected world: %r" % (e,), rep(idx, kind="infrastructure", spec=ans), found=False)
+            continue
+        if mode == "rej":
+            want = None if names == "NONE" else (names.split(";") if names != "-" else [])
+            defs_ok = all(G.parse_define_value(x) and (G.parse_define_value(x)[0] + ":c") in (want or []) for x in d)
+            if decided == "1" and want is not None and defs_ok:
+                chk.violation("the program has a world (every condition met is decided by its constants, the selected arms declare %s without clash, "
+                              "every define names one of these constants) yet the implementation rejects it: %s" % (sorted(want), res["debug"][idx]),
+                              rep(idx, kind="spec-reject", spec=ans, selected_world=G.render([n for (n, _) in world])))
+            continue
+        isyms = parse_syms(fi[2])
         if decided != "1":
             chk.violation("the implementation accepted a program in which a condition on the selected path is not decided by its own final constants",
                           rep(idx, kind="spec", spec=ans))
@@ -238,7 +285,8 @@ def run(chk):
         got_names = sorted("%s:%s" % (n, k) for (n, k, v) in isyms)
         want = None if names == "NONE" else sorted(names.split(";") if names != "-" else [])
         if got_names != want:
-            if not f55(idx, "declared symbols %s differ from those of the selected world %s" % (got_names, want), kind="spec", spec=ans):
+            if not f55(idx, "declared symbols %s differ from those of the selected world %s" % (got_names, want), world, kind="spec", spec=ans,
+                       selected_world=G.render([n for (n, _) in world])):
                 continue
         # a define replaces the value of the constant of that name
         for raw in d:
@@ -260,6 +308,7 @@ def run(chk):
         dh = ";".join(vlib.hx(x) for x in d) if d else "-"
         meta_lines.append("C\t%s\t%s\t%s" % (impl_lines[idx].split("\t")[1], dh, vlib.hx(G.render(flat_tree))))
         meta_idx.append(idx)
+        worlds[idx] = world
     mr = vlib.run_lines([bins["debug"] + "/cond"], meta_lines)
     nmeta = 0
     for idx, ans, line in zip(meta_idx, mr, meta_lines):
@@ -268,7 +317,7 @@ def run(chk):
         sa = sorted(parse_syms(a[2])) if a[0] == "OK" else None
         sb = sorted(parse_syms(b[2])) if b[0] == "OK" and len(b) > 2 else None
         if a[0] != b[0] or a[1] != b[1] or sa != sb:
-            f55(idx, "the program and its selected world assemble differently: %s vs %s" % (res["debug"][idx], ans),
+            f55(idx, "the program and its selected world assemble differently: %s vs %s" % (res["debug"][idx], ans), worlds.get(idx),
                 kind="metamorphic", selected_world=vlib.unhx(line.split("\t")[3]), selected_world_result=ans)
     for what, r in corr_viol:
         chk.violation(what, r, found=False)
